@@ -19,7 +19,7 @@ CFG = hprop.HistoryProperty(
         "a base's station is co-located with the base, as the input documentation says",
         "PYTHONHASHSEED pinned to 0 for the check process",
     ],
-    quick=(16, 100, 35), thorough=(16, 2000, 60), probes=True,
+    quick=(16, 100, 35), thorough=(16, 600, 50), probes=True,
     # bias towards contention: send vehicles to stations/bases (preferably full ones), pull them out again
     instr_bias={"rush": True, "kinds": [2, 2, 2, 2, 3, 3, 4, 4, 5, 6, 6, 0, 0, 1, 7, 8], "tclasses": [0, 1, 1, 3, 3, 3, 2, 4, 6]},
 )
